@@ -917,6 +917,12 @@ class VM:
         else:
             b = self.val(frame, scope, row.get("operand2"), row)
             v = self.binop(op, a, b, row)
+        if "php-property-initialiser-as-local-assignment" in self.switches and self.family == "php" and \
+                frame.name == "%class_init" and isinstance(frame.this, Obj) and str(row.get("target")).startswith("$"):
+            # compensation: `public $f = v;` is lowered to an assignment to a local variable $f inside %class_init; the
+            # repaired lowering would be a write to the field of the new object
+            frame.this.fields[str(row.get("target"))[1:]] = v
+            return None
         self.write(frame, scope, row.get("target"), v, row)
 
     def op_new_array(self, unit, row, frame, scope):
